@@ -65,13 +65,23 @@ def st_bus(tier):
         aw = draw(st.sampled_from([32, 32, 32, 64]))
         nops = draw(st.integers(2, 14 if tier == "quick" else 30))
         ops = []
+        ios = []
         for _ in range(nops):
             k = draw(st.integers(0, 9))
             name = draw(st.sampled_from(NAMES))
             if k == 0:
                 ops.append(["io", name, draw(origin(aw)), draw(sizes)])
+                ios.append(ops[-1][2:4])
             elif k in (1, 2, 3):
-                ops.append(["fix", name, draw(origin(aw)), draw(sizes), draw(st.booleans()), draw(st.integers(0, 7)) == 0])
+                sz = draw(sizes)
+                if ios and draw(st.integers(0, 2)) == 0:
+                    # around the ends of an IO region declared before: inside, straddling either end, covering it
+                    io_o, io_s = draw(st.sampled_from(ios))
+                    og = max(0, draw(st.sampled_from([io_o, io_o - sz // 2, io_o + io_s - sz, io_o + io_s - sz // 2, io_o + io_s, io_o - sz])))
+                    og &= (1 << aw) - 1
+                else:
+                    og = draw(origin(aw))
+                ops.append(["fix", name, og, sz, draw(st.booleans()), draw(st.integers(0, 7)) == 0])
             elif k in (4, 5):
                 ops.append(["alloc", name, draw(sizes), draw(st.booleans())])
             elif k in (6, 7):
@@ -116,7 +126,7 @@ def _apply_bus(bus, op, log):
         _, name, origin, size, cached, linker = op
         dup = name in bus.regions or name in bus.io_regions
         bus.add_region(name, SoCRegion(origin=origin, size=size, cached=cached, linker=linker))
-        return {"dup_name": dup}
+        return {"dup_name": dup, "fixed": name, "cached": cached}
     if kind == "alloc":
         _, name, size, cached = op
         dup = name in bus.regions or name in bus.io_regions
@@ -137,6 +147,9 @@ def _apply_bus(bus, op, log):
         r = {"dup_name": dup, "dup_slave": dupslave}
         if how == "alloc":
             r["allocated"] = name if name is not None else "slave%d" % nbefore
+            r["cached"] = cached
+        elif region is not None:
+            r["fixed"] = name if name is not None else "slave%d" % nbefore
             r["cached"] = cached
         return r
     if kind == "master":
@@ -184,6 +197,12 @@ def _bus_invariants(bus, info, case):
             inside = any(r.origin >= io.origin and r.origin + r.size <= io.origin + io.size for _, io in ios)
             if not inside:
                 return "alloc-io", "uncached allocated region %s [%#x,+%#x) is in no IO region" % (an, r.origin, r.size)
+    fn = info.get("fixed")
+    if fn is not None and fn in bus.regions and not info["cached"] and bus.io_regions_check:
+        # IO / cached consistency: a region declared uncached at a fixed origin is accepted only inside an IO region
+        r = bus.regions[fn]
+        if not any(r.origin >= io.origin and r.origin + r.size <= io.origin + io.size for _, io in ios):
+            return "fixed-io", "uncached region %s [%#x,+%#x) declared at a fixed origin was accepted although it lies in no IO region" % (fn, r.origin, r.size)
     return None
 
 
